@@ -66,7 +66,17 @@ RULE = ("merge: every multiset of <= 3 (quick) / <= 4 (thorough) of the 36 inter
         "merge order, or tie-insensitive criteria) and children_bp(merge=True) (children with distinct starts), judged against the "
         "single-pass model with the answers reduced by bool(). non-trivial = the model has >= 1 multi-member "
         "run and >= 1 singleton (two-stage merges: a multi-member output of the first stage opens a multi-member run of the second); "
-        "distinct = distinct (features, criteria, follow-up) tuples")
+        "distinct = distinct (features, criteria, follow-up) tuples.  'comma' cases: start-ordered lists of 1..3 clusters whose first "
+        "feature lies on a seqid that literally holds a comma ('ctg,7', 'chr1,chr2', 'a,b', 'sc,1,x', 'contig_12,len=4003', 'b,a', "
+        "'7,ctg') and whose 1..5 followers begin inside the cluster (75%), on the base after it or detached, on a seqid equal to one "
+        "of the comma-separated PARTS ('7', 'ctg'; 70%), on the comma seqid itself (at most one), on the reversed join or an unrelated "
+        "seqid, same strand / type in 75% of the clusters; default criteria (75%) or seqid + overlap_end_threshold 0..3; Feature "
+        "objects (60%) or read from a database; merged again (same objects same / other criteria, yielded objects when no merged "
+        "output carries a comma-joined seqid).  'hashed' cases: random / grouped / shaped lists (objects or database; default criteria "
+        "60%, random otherwise) with >= 1 multi-member run whose input objects - all (40%), only the first members of the multi-member "
+        "runs (25%), only one later member of each (20%), a random subset - are hashed BEFORE merge(): list(dict.fromkeys(features + "
+        "features[:2])) (the de-duplicated list is the input), set(features) kept alive, dict keys, hash(); 80% merged again (same "
+        "objects same / other criteria; the yielded objects, put into a set first, as inputs of a further merge)")
 REQUIRED = ["merge calls", "outputs mapped to inputs by identity", "multi-member runs compared", "singleton outputs compared",
             "position-set union comparisons (default criteria)", "merged ids checked", "calls yielding >= 2 merged outputs",
             "re-merge calls: same objects, same criteria", "re-merge calls: same objects, other criteria",
@@ -175,8 +185,35 @@ REQUIRED_CLASSES = ["merge/exhaustive uniform default", "merge/exhaustive groupe
                     "merge_all/pattern characters in featuretypes, lines without ID",
                     "merge_all/pattern characters in featuretypes, second session",
                     "merge/criteria answering with non-bool values, objects", "merge/criteria answering with non-bool values, db",
-                    "merge_all/criteria answering with non-bool values", "children_bp/criteria answering with non-bool values"]
+                    "merge_all/criteria answering with non-bool values", "children_bp/criteria answering with non-bool values",
+                    "merge/seqids holding a comma next to seqids equal to one of their parts",
+                    "merge/input objects hashed before merge()", "merge/hashed: all", "merge/hashed: first members of runs",
+                    "merge/hashed: later members of runs"]
+REQUIRED += ["comma seqids: merge() calls judged on inputs whose seqids hold a comma",
+             "comma seqids: such calls on features read from a database",
+             "comma seqids: features on a seqid equal to one PART of the comma-holding seqid of the run they begin in, same strand and "
+             "type: not joined",
+             "comma seqids: such features under the default criteria",
+             "comma seqids: such features after a two-member run on the comma-holding seqid",
+             "comma seqids: two-member runs compared whose members share a comma-holding seqid",
+             "comma seqids: multi-member runs compared on a seqid equal to a part of a comma-holding seqid in the same input",
+             "hashed inputs: input objects hashed before merge()",
+             "hashed inputs: the list handed to merge() is the result of list(dict.fromkeys(features + features[:2]))",
+             "hashed inputs: objects yielded by merge() put into a set before they were merged again"] + \
+            ["hashed inputs: %s%s" % (pre, w) for pre in ("", "merged a second time: ") for w in (
+                "multi-member runs compared whose FIRST member had been hashed", "such runs with >= 3 members",
+                "multi-member runs compared with a hashed LATER member (first member not hashed)",
+                "hashed singletons yielded unchanged", "merge() calls judged, features read from a database",
+                "merge() calls judged, features built as Feature objects")] + \
+            ["hashed inputs: merge() calls judged, objects hashed through %s" % h for h in ("dict.fromkeys", "set", "dict key", "hash()")]
 ASSUMPTIONS = [
+    "seqids are compared as exact strings: a feature on '7' or 'ctg' never joins a run on 'ctg,7' while `seqid` is among the "
+    "criteria.  NOT generated (the unchanged tree deviates there): a run that would hold THREE or more features of one "
+    "comma-holding seqid - after the second member the run's seqid is 'ctg,7,ctg,7' and a third feature on 'ctg,7' is rejected, "
+    "e.g. exon + ctg,7:100-200, 150-160, 155-300 gives (100-200: 2 children), (155-300) instead of one run 100-300.  The seqid a "
+    "multi-member output REPORTS when its children share a comma-holding seqid is not judged ('ctg,7,ctg,7' there; counted)",
+    "hashing an input Feature (set / dict key / dict.fromkeys / hash()) is an ordinary use of the object and no change to it: the "
+    "statement's partition, extents, fresh ids and 'merging the same objects again gives the same result' apply as to fresh objects",
     "the shipped criteria carry no documentation beyond their names; the model re-states them as 'cur begins inside the run "
     "or within `reach` bases after it' / 'cur ends inside the run or within `reach` bases before it', with "
     "overlap_end_threshold(1) and overlap_start_threshold(0) equal to the two 'inclusive' criteria",
@@ -568,11 +605,98 @@ def one_merge(ctx, case, db, feats, model_in, desc, step, issued, dbids):
     rejected_evidence(ctx, model_in, desc)
     if is_default(desc) and M.is_grouped_start_ordered(model_in):
         ctx.mon("position-set union comparisons (default criteria)")
-        got_ext = sorted((o.seqid, o.strand, o.featuretype, o.start, o.end) for o in out)
+        got_ext = sorted((output_seqid(ctx, case, o), o.strand, o.featuretype, o.start, o.end) for o in out)
         exp_ext = M.union_extents(model_in)
         if got_ext != [tuple(x) for x in exp_ext]:
             return bad("extents differ from the position-set union per (seqid, strand, type)", got=got_ext, expected=exp_ext)
     return out
+
+
+def output_seqid(ctx, case, o):
+    """The seqid under which an output enters the per-(seqid, strand, type) union comparison.  Inputs whose seqid holds a
+    comma ('comma' cases): the seqid a multi-member output REPORTS is not stated (the unchanged tree reports 'ctg,7,ctg,7' for
+    two children on 'ctg,7'); the seqid its children share is used and the reported one only counted."""
+    ch = getattr(o, "children", None)
+    if case.get("comma") and ch and len(set(c.seqid for c in ch)) == 1:
+        shared = ch[0].seqid
+        if "," in shared:
+            ctx.mon("comma seqids: merged outputs over children that share a comma-holding seqid: reported seqid %s (not judged)"
+                    % ("equals it" if o.seqid == shared else "differs from it"))
+        return shared
+    return o.seqid
+
+
+HASH_HOW = ["dict.fromkeys", "set", "dict key", "hash()"]
+
+
+def hash_inputs(ctx, case, feats):
+    """'hashed' cases: the input objects named by case["hashed"]["which"] (indices) are hashed the way callers do it before
+    merge() sees them: de-duplicated through dict.fromkeys (the list handed to merge() is the de-duplicated one when it holds
+    the same objects in the same order), collected in a set that stays alive, used as dict keys, or passed to hash().
+    Returns (the list to merge, the container to keep alive)."""
+    h = case["hashed"]
+    chosen = [feats[i] for i in h["which"] if i < len(feats)]
+    how = h["how"]
+    if how == "dict.fromkeys":
+        keep = dict.fromkeys(chosen + chosen[:2])
+        if len(chosen) == len(feats):
+            dedup = list(keep)
+            if len(dedup) == len(feats) and all(x is y for x, y in zip(dedup, feats)):
+                feats = dedup
+                ctx.mon("hashed inputs: the list handed to merge() is the result of list(dict.fromkeys(features + features[:2]))")
+            else:
+                ctx.mon("hashed inputs: dict.fromkeys() folded equal features (the original list is merged)")
+    elif how == "set":
+        keep = set(chosen)
+    elif how == "dict key":
+        keep = {f: i for i, f in enumerate(chosen)}
+    else:
+        keep = [hash(f) for f in chosen]
+    ctx.mon("hashed inputs: input objects hashed before merge()", len(chosen))
+    return feats, keep
+
+
+def hashed_evidence(ctx, case, model_in, desc, prefix):
+    """Counters of a judged merge() call of a 'hashed' case (the call agreed with the model)."""
+    which = set(case["hashed"]["which"])
+    ctx.mon("hashed inputs: %smerge() calls judged, objects hashed through %s" % (prefix, case["hashed"]["how"]))
+    ctx.mon("hashed inputs: %smerge() calls judged, features %s" % (prefix, "read from a database" if case["source"] == "db"
+                                                                   else "built as Feature objects"))
+    for r in M.single_pass(model_in, desc):
+        if len(r) < 2:
+            if r[0] in which:
+                ctx.mon("hashed inputs: %shashed singletons yielded unchanged" % prefix)
+            continue
+        if r[0] in which:
+            ctx.mon("hashed inputs: %smulti-member runs compared whose FIRST member had been hashed" % prefix)
+            if len(r) >= 3:
+                ctx.mon("hashed inputs: %ssuch runs with >= 3 members" % prefix)
+        elif which & set(r[1:]):
+            ctx.mon("hashed inputs: %smulti-member runs compared with a hashed LATER member (first member not hashed)" % prefix)
+
+
+def comma_evidence(ctx, case, model_in, desc):
+    """Counters of a judged merge() call of a 'comma' case (the call agreed with the model)."""
+    ctx.mon("comma seqids: merge() calls judged on inputs whose seqids hold a comma")
+    if case["source"] == "db":
+        ctx.mon("comma seqids: such calls on features read from a database")
+    runs = M.single_pass(model_in, desc)
+    for prev, nxt in zip(runs, runs[1:]):
+        head, f = model_in[prev[0]], model_in[nxt[0]]
+        lo, hi = M.extent(model_in, prev)
+        if "," in head["seqid"] and f["seqid"] != head["seqid"] and f["seqid"] in head["seqid"].split(",") and "seqid" in desc \
+                and f["strand"] == head["strand"] and f["featuretype"] == head["featuretype"] and lo <= f["start"] <= hi + 1:
+            ctx.mon("comma seqids: features on a seqid equal to one PART of the comma-holding seqid of the run they begin in, same "
+                    "strand and type: not joined")
+            if is_default(desc):
+                ctx.mon("comma seqids: such features under the default criteria")
+            if len(prev) == 2:
+                ctx.mon("comma seqids: such features after a two-member run on the comma-holding seqid")
+    for r in runs:
+        if len(r) == 2 and "," in model_in[r[0]]["seqid"] and model_in[r[1]]["seqid"] == model_in[r[0]]["seqid"]:
+            ctx.mon("comma seqids: two-member runs compared whose members share a comma-holding seqid")
+        if len(r) >= 2 and "," not in model_in[r[0]]["seqid"]:
+            ctx.mon("comma seqids: multi-member runs compared on a seqid equal to a part of a comma-holding seqid in the same input")
 
 
 PATTERN_CHARS = {"[": "a bracket expression", "*": "'*'", "?": "'?'", "%": "'%'", "_": "'_'"}
@@ -668,6 +792,9 @@ def execute_merge(ctx, case):
         if case.get("frames") and [f.frame for f in feats] != list(case["frames"]):
             ctx.violation(case, {"why": "harness: the input features do not carry the generated frame column"})
             return
+        keep_alive = None
+        if case.get("hashed"):
+            feats, keep_alive = hash_inputs(ctx, case, feats)
         strs = [str(f) for f in feats]
         dump0 = dbdump.dump_db(db)
         dbids = set(f["id"] for f in dump0["features"])
@@ -686,19 +813,29 @@ def execute_merge(ctx, case):
 
         out = one_merge(ctx, case, db, feats, model_in, desc, "first merge", issued, dbids)
         ok = inputs_unchanged("first merge")
+        if out is not None and case.get("hashed"):
+            hashed_evidence(ctx, case, model_in, desc, "")
+        if out is not None and case.get("comma"):
+            comma_evidence(ctx, case, model_in, desc)
         if ok and out is not None and case.get("again"):
             second = case["second"]
-            one_merge(ctx, case, db, feats, model_in, desc, "same objects, same criteria", issued, dbids)
+            again = one_merge(ctx, case, db, feats, model_in, desc, "same objects, same criteria", issued, dbids)
             ok = inputs_unchanged("same objects, same criteria")
+            if again is not None and case.get("hashed"):
+                hashed_evidence(ctx, case, model_in, desc, "merged a second time: ")
             if ok:
                 one_merge(ctx, case, db, feats, model_in, second, "same objects, other criteria", issued, dbids)
                 ok = inputs_unchanged("same objects, other criteria")
-            if ok and any("," in str(o.seqid) for o in out):
+            if ok and any("," in str(o.seqid) and getattr(o, "children", None) for o in out):
                 # a first pass without the seqid criterion yields features whose seqid is a comma-joined list; how such a
                 # value evolves and compares when merged again is nowhere stated: not judged
                 ctx.skip("re-merge of yielded objects carrying a comma-joined seqid (statement silent)")
             elif ok:
                 # the objects the first call yielded (they are start-ordered: every run begins with its leftmost member)
+                if case.get("hashed"):
+                    # the yielded objects (merged outputs with children among them) are hashed as well before they are inputs
+                    keep_alive = (keep_alive, set(out))
+                    ctx.mon("hashed inputs: objects yielded by merge() put into a set before they were merged again")
                 before_out = [str(o) for o in out]
                 one_merge(ctx, case, db, out, [observe(o) for o in out], second, "objects yielded by merge()", issued, dbids)
                 if [str(o) for o in out] != before_out:
@@ -1307,6 +1444,68 @@ def nontrivial(rows, desc):
     return any(len(r) > 1 for r in runs) and any(len(r) == 1 for r in runs)
 
 
+def comma_runs_ok(rows, desc):
+    """False when some run of the model holds >= 3 features of one comma-holding seqid: the unchanged tree does not merge
+    those (see ASSUMPTIONS) and such inputs are not generated."""
+    if "seqid" not in desc:
+        return True
+    m = [model_row(r) for r in rows]
+    return not any(len(r) >= 3 and "," in m[r[0]]["seqid"] for r in M.single_pass(m, desc))
+
+
+def gen_comma(rng):
+    """A 'comma' merge case: seqids that hold a comma next to seqids equal to one of their parts (G.comma_feats), under the
+    default criteria (75%) or seqid + threshold criteria, as objects or read from a database, merged again afterwards."""
+    while True:
+        rows = G.comma_feats(rng)
+        if rng.random() < 0.75:
+            desc = list(M.DEFAULT)
+        else:
+            desc = ["seqid", [rng.choice(G.THRESHOLDS[:1]), rng.randrange(0, 4)]] + [x for x in ("strand", "feature_type") if rng.random() < 0.7]
+        second = list(M.DEFAULT) if rng.random() < 0.5 else [x for x in ("strand", "feature_type") if rng.random() < 0.7] + \
+            [["overlap_end_threshold", rng.randrange(0, 4)]] + (["seqid"] if rng.random() < 0.6 else [])
+        if comma_runs_ok(rows, desc) and comma_runs_ok(rows, second):
+            break
+    case = {"kind": "merge", "source": "objects" if rng.random() < 0.6 else "db", "feats": rows, "criteria": desc, "again": rng.random() < 0.7,
+            "second": second, "omit_criteria": rng.random() < 0.5, "form": G.criteria_form(rng, desc), "comma": True}
+    if case["source"] == "db":
+        case["ids"] = G.ids_for(rng, rows)
+        case["dbfile"] = rng.random() < 0.15
+    return case
+
+
+def gen_hashed(rng):
+    """A 'hashed' merge case: an ordinary input (random grouped / random / shaped lists, objects or database) whose objects -
+    all of them, only the first members of the model's multi-member runs, only later members, or a random subset - are hashed
+    before merge() (dict.fromkeys de-duplication, set, dict keys, hash()); mostly merged again afterwards."""
+    while True:
+        r = rng.random()
+        rows = G.shaped_feats(rng) if r < 0.3 else G.random_feats(rng)
+        desc = list(M.DEFAULT) if rng.random() < 0.6 else G.criteria(rng)
+        if is_default(desc) and r >= 0.3 and rng.random() < 0.6:
+            rows = G.group_then_start(rows)
+        runs = [x for x in M.single_pass([model_row(x) for x in rows], desc) if len(x) > 1]
+        if runs or rng.random() < 0.1:
+            break
+    t = rng.random()
+    if t < 0.4 or not runs:
+        which, what = list(range(len(rows))), "all"
+    elif t < 0.65:
+        which, what = [x[0] for x in runs], "first members of runs"
+    elif t < 0.85:
+        which, what = sorted(rng.choice(x[1:]) for x in runs), "later members of runs"
+    else:
+        which, what = sorted(rng.sample(range(len(rows)), rng.randrange(1, len(rows) + 1))), "random subset"
+    how = "dict.fromkeys" if what == "all" and rng.random() < 0.5 else rng.choice(HASH_HOW)
+    case = {"kind": "merge", "source": "objects" if rng.random() < 0.55 else "db", "feats": rows, "criteria": desc,
+            "again": rng.random() < 0.8, "second": G.criteria(rng), "omit_criteria": rng.random() < 0.5,
+            "form": G.criteria_form(rng, desc), "hashed": {"how": how, "which": which, "what": what}}
+    if case["source"] == "db":
+        case["ids"] = G.ids_for(rng, rows)
+        case["dbfile"] = rng.random() < 0.1
+    return case
+
+
 def run_merge_case(ctx, case, cls):
     execute(ctx, case)
     ctx.case((case["feats"], case["criteria"], case.get("second"), case["source"]), nontrivial(case["feats"], case["criteria"]),
@@ -1832,6 +2031,13 @@ def run(ctx):
         info = execute(ctx, case)
         ctx.case((case["feats"], case["parents"], case["calls"]), bool(info and info.get("decisive")),
                  cls="children_bp/criteria answering with non-bool values")
+    # 10b. seqids that hold a comma next to seqids equal to one of their parts; input objects hashed before merge()
+    for _ in range(ctx.budget(600, 40000)):
+        run_merge_case(ctx, gen_comma(rng), "merge/seqids holding a comma next to seqids equal to one of their parts")
+    for _ in range(ctx.budget(800, 48000)):
+        case = gen_hashed(rng)
+        run_merge_case(ctx, case, "merge/input objects hashed before merge()")
+        ctx.classes["merge/hashed: " + case["hashed"]["what"]] += 1
     # 11. ONE very long run (>= 1000 chained members) through merge_all, with and without exclude_components: one shard of four
     if ctx.shard % 4 == 1:
         for exclude in (True, False):
@@ -1879,8 +2085,14 @@ MANIFEST = {
             "merge_all() hands out is new and distinct and merge_all stores its features; criteria that answer with truthy / "
             "falsy values other than True / False (None, '', [], (), 0, match objects, 'x', 1) through merge(), merge_all() and "
             "children_bp(merge=True): a falsy answer rejects the pair, as in all(). "
+            "Seqids that literally hold a comma ('ctg,7') lead clusters whose followers lie on seqids equal to one of the comma-"
+            "separated parts ('7', 'ctg') with overlapping coordinates: under criteria holding `seqid` a feature joins a run on its "
+            "own seqid only. Input objects that were hashed before merge() (dict.fromkeys de-duplication, set members, dict keys), as "
+            "first and as later members of multi-member runs, give the partition, extents and ids of fresh objects, also when merged "
+            "again. "
             "Held = no executed case disagreed.",
-    "note": "Trusted: gvmon/models/c16_merge.py (its reading of the undocumented criteria names), create_db. Not asserted: "
+    "note": "Not generated: runs of >= 3 features on one comma-holding seqid (the unchanged tree splits them, see assumptions). "
+            "Trusted: gvmon/models/c16_merge.py (its reading of the undocumented criteria names), create_db. Not asserted: "
             "bin / attributes / source / seqid / strand / type of in-memory merged outputs under non-default criteria, the frame a "
             "merged output reports, output "
             "order, persistence of the id counters merge_all advances.",
